@@ -265,6 +265,14 @@ def c19Scalar {α : Type} (ops : C19Ops α) : C19Bin → C19V α → C19V α →
   | .mul, .elem a, .int b => .ok (.elem (ops.mul a (ops.ofInt b)))
   | .mul, .frac a b, .elem c => .ok (.elem (ops.mul (ops.ofFrac a b) c))
   | .mul, .elem c, .frac a b => .ok (.elem (ops.mul c (ops.ofFrac a b)))
+  /- `float / float` (`EvaluationMapper.map_quotient` on a `Rational` built under Python 3) -/
+  | .truediv, .frac a b, .frac c d =>
+      if c = 0 then .raise "ZeroDivisionError" else .ok (.frac (a * d) (b * c))
+  /- `float ** int` (the fields of a `Rational` are floats under Python 3): `(a/b)**k` -/
+  | .pow, .frac a b, .int k =>
+      if 0 ≤ k then .ok (.frac (a ^ k.toNat) (b ^ k.toNat))
+      else if a = 0 then .raise "ZeroDivisionError"
+      else .ok (.frac (b ^ (-k).toNat) (a ^ (-k).toNat))
   | _, _, _ => .stuck "operands outside the arithmetic of the language"
 
 def c19ZipM {α : Type} (f : C19V α → C19V α → C19R (C19V α)) :
@@ -549,6 +557,7 @@ def c19BinOp {α : Type} (cx : C19Cx α) (op : C19Bin) (a b : C19V α) : C19R (C
 
 def c19Neg {α : Type} (cx : C19Cx α) : C19V α → C19R (C19V α)
   | .int i => .ok (.int (-i))
+  | .frac a b => .ok (.frac (-a) b)
   | .obj c k v => c19Method cx (.obj c k v) "__neg__" []
   | _ => .stuck "unary minus outside the language"
 
